@@ -190,6 +190,8 @@ var stdDeps = []*Dep{
 	{Path: "database/sql/driver", Name: "driver", Std: true, Ifaces: []string{"Value", "Valuer"}},
 }
 
+var unsafeDep = &Dep{Path: "unsafe", Name: "unsafe", Std: true, Extra: []string{"Pointer"}}
+
 func stdByPath(p string) *Dep {
 	for _, d := range stdDeps {
 		if d.Path == p {
@@ -331,6 +333,10 @@ func (b *builder) makeDeps() {
 		if b.chance(b.prof.Aliases / 2) {
 			d.SrcAlias = b.pick([]string{"std" + d.Name, d.Name + "pkg", "x"})
 		}
+		t.Std = append(t.Std, &d)
+	}
+	if b.hz.UnsafePointer && b.chance(0.3) {
+		d := *unsafeDep
 		t.Std = append(t.Std, &d)
 	}
 	// dot-imported packages need type names that do not collide with anything local: make them unique.
